@@ -18,6 +18,9 @@ def main():
     from dw import harness
 
     harness.ensure_deps()
+    import logging
+
+    logging.disable(logging.CRITICAL)
     summary = {"cases": 0, "execs": 0, "invs": 0, "api": 0, "classes": set(), "violations": [], "obs": {}, "samples": [],
                "interleavings": set()}
     budget = getattr(mod, "BUDGET", {}).get(tier)
